@@ -212,7 +212,7 @@ theorem no_deadlock_partial {r : Fin n} {s : St n} (h : Reach r s) (hall : ∀ v
   have h1 := reach_G1 h
   have hb := hall r h1.rootAlive
   have hne := collect_not_stuck h hall
-  rcases hb.2 with ⟨hw, hf⟩ | hd | hd
+  rcases hb.2 with ⟨hw, hf⟩ | hd | hd | hd
   · cases hpc : s.pc r <;> simp [hpc, isWaitPc] at hw
     · have := (h1.pcKind r h1.rootAlive).2 rfl; rw [hpc] at this; cases this
     · left
@@ -222,6 +222,7 @@ theorem no_deadlock_partial {r : Fin n} {s : St n} (h : Reach r s) (hall : ∀ v
     · right; left; rfl
   · have := (h1.pcKind r h1.rootAlive).2 rfl; rw [hd] at this; cases this
   · right; right; exact hd
+  · have := (h1.pcKind r h1.rootAlive).2 rfl; rw [hd] at this; cases this
 
 /-! ## the hypotheses are satisfiable: a concrete run -/
 
